@@ -146,7 +146,7 @@ pub fn run(ctx: &Ctx) -> i32 {
     // the thread count next to other options and inside an expression
     let threads: Vec<String> = inputs.iter().filter(|s| s.starts_with("-threads ")).cloned().collect();
     for t in &threads {
-        for (pre, suf) in [("", " -name x -depth"), ("-depth ", " -name x"), ("-name x ", ""), ("-name x -depth ", " -print"), ("-threads 5 ", " -true -depth")] {
+        for (pre, suf) in [("", " -name x -depth"), ("-depth ", " -name x"), ("-name x ", ""), ("-name x -depth ", " -print"), ("-threads 5 ", " -true -depth"), ("", " -name core -print -quit"), ("-name core -quit ", "")] {
             inputs.push(format!("{pre}{t}{suf}"));
         }
     }
